@@ -247,8 +247,23 @@ def run(ctx):
             if r.violated:
                 what += " (specification invariant %s violated)" % r.violated
             what += "\nspecification state before/at that line: %s" % json.dumps(predicted)[:700]
-            ctx.diverge(key, what, {"label": label, "kind": "reject", "mode": "real", "script": ["\t".join(map(str, l)) for l in ex],
-                                    "log": lines[:rel + 1], "observed": observed, "predicted": predicted})
+            # real children depend on the kernel's scheduling (a child that does not finish within the harness's deadline under heavy load is
+            # logged as a hang): a rejection is reported only if running that execution again, on its own, is rejected again
+            confirmed = True
+            for attempt in (1, 2):
+                s2 = os.path.join(ctx.work, "%s.confirm%d.script.tsv" % (label, attempt)); l2 = os.path.join(ctx.work, "%s.confirm%d.log.ndjson" % (label, attempt))
+                write_script(s2, [ex])
+                rc2, out2, to2 = run_harness(s2, l2)
+                if rc2 == 0 and not crashed(rc2, out2):
+                    ok2, _, _ = ctx.validate_trace("Trace_SepProcess", tcfg, l2, timeout=900)
+                    if ok2:
+                        confirmed = False
+                        break
+            if not confirmed:
+                ctx.notes.setdefault("unconfirmed_rejections", []).append({"key": key, "what": what[:300], "accepted_on_rerun": attempt})
+            else:
+                ctx.diverge(key, what, {"label": label, "kind": "reject", "mode": "real", "script": ["\t".join(map(str, l)) for l in ex],
+                                        "log": lines[:rel + 1], "observed": observed, "predicted": predicted})
             ctx.traces += k
             reports += 1
             nxt = exs[k + 1][0] if k + 1 < len(exs) else None
